@@ -638,6 +638,19 @@ func runC11(p *Prog, l *Ledger) {
 		var sel, acq, evict, deliver ssa.Instruction
 		var limAP string
 		allInstrs(f, func(ins ssa.Instruction) {
+			// the delivery written in place: a select (or plain send) that offers a Listener on a channel
+			switch x := ins.(type) {
+			case *ssa.Select:
+				for _, st := range x.States {
+					if st.Dir == types.SendOnly && st.Send != nil && types.Identical(st.Send.Type(), p.coreNamed("Listener")) {
+						deliver = ins
+					}
+				}
+			case *ssa.Send:
+				if types.Identical(x.X.Type(), p.coreNamed("Listener")) {
+					deliver = ins
+				}
+			}
 			call, ok := ins.(*ssa.Call)
 			if !ok {
 				return
